@@ -23,6 +23,113 @@ def repo_root() -> str:
     return os.environ.get('VERIF_REPO', '/repo')
 
 
+def _const_table(v: Optional[ast.AST], limit: int = 16) -> bool:
+    if not isinstance(v, (ast.List, ast.Tuple)) or not v.elts or len(v.elts) > limit:
+        return False
+
+    def c(e: ast.AST) -> bool:
+        if isinstance(e, ast.Constant):
+            return True
+        return isinstance(e, ast.Tuple) and all(c(x) for x in e.elts)
+    return all(c(e) for e in v.elts)
+
+
+def unroll_table_loops(tree: ast.Module) -> int:
+    """Table-driven straight-line code, made explicit: a `for <names> in <TABLE>:` statement whose iterable is a module-level name bound
+    once to a list/tuple of constants (or tuples of constants, at most 16 rows), whose body neither breaks, continues nor rebinds the loop
+    names, and which has no else clause, is replaced in place by one copy of its body per row with the loop names replaced by the row's
+    constants.  That is what the loop computes; rules written for the unrolled spelling (five `_export_disp_rowset(...)` calls) then read
+    the table-driven spelling the same way.  Positions of the copies are those of the original body statements.  Returns the number of loops
+    unrolled."""
+    import copy
+    tables: Dict[str, ast.AST] = {}
+    counts: Dict[str, int] = {}
+    for st in tree.body:
+        tg: List[ast.AST] = []
+        val: Optional[ast.AST] = None
+        if isinstance(st, ast.Assign):
+            tg, val = list(st.targets), st.value
+        elif isinstance(st, ast.AnnAssign) and st.value is not None:
+            tg, val = [st.target], st.value
+        for t in tg:
+            if isinstance(t, ast.Name):
+                counts[t.id] = counts.get(t.id, 0) + 1
+                if _const_table(val):
+                    tables[t.id] = val          # type: ignore[assignment]
+    tables = {k: v for k, v in tables.items() if counts.get(k) == 1}
+    if not tables:
+        return 0
+    done = 0
+
+    def own_level(stmts: Sequence[ast.stmt]) -> Iterator[ast.AST]:
+        for st in stmts:
+            yield st
+            if isinstance(st, (ast.For, ast.While, ast.FunctionDef, ast.AsyncFunctionDef, ast.ClassDef)):
+                continue
+            for fld in ('body', 'orelse', 'finalbody'):
+                yield from own_level(getattr(st, fld, []) or [])
+            for h in getattr(st, 'handlers', []):
+                yield from own_level(h.body)
+
+    def expand(loop: ast.For) -> Optional[List[ast.stmt]]:
+        if not (isinstance(loop.iter, ast.Name) and loop.iter.id in tables) or loop.orelse:
+            return None
+        rows = tables[loop.iter.id].elts          # type: ignore[attr-defined]
+        if isinstance(loop.target, ast.Name):
+            names = [loop.target.id]
+            rowvals = [[r] for r in rows]
+        elif isinstance(loop.target, ast.Tuple) and all(isinstance(e, ast.Name) for e in loop.target.elts):
+            names = [e.id for e in loop.target.elts]          # type: ignore[attr-defined]
+            if not all(isinstance(r, ast.Tuple) and len(r.elts) == len(names) for r in rows):
+                return None
+            rowvals = [list(r.elts) for r in rows]          # type: ignore[attr-defined]
+        else:
+            return None
+        if any(isinstance(x, (ast.Break, ast.Continue)) for x in own_level(loop.body)):
+            return None
+        for x in ast.walk(loop):
+            if x is not loop.target and isinstance(x, ast.Name) and x.id in names and not isinstance(x.ctx, ast.Load) and not any(x is y for y in ast.walk(loop.target)):
+                return None
+            if isinstance(x, (ast.FunctionDef, ast.AsyncFunctionDef, ast.Lambda, ast.Global, ast.Nonlocal)):
+                return None
+        out: List[ast.stmt] = []
+        for vals in rowvals:
+            sub = dict(zip(names, vals))
+
+            class Sub(ast.NodeTransformer):
+                def visit_Name(self, n: ast.Name) -> ast.AST:      # noqa: N802
+                    if n.id in sub and isinstance(n.ctx, ast.Load):
+                        return ast.copy_location(copy.deepcopy(sub[n.id]), n)
+                    return n
+            for b in loop.body:
+                out.append(Sub().visit(copy.deepcopy(b)))
+        return out
+
+    def rewrite(stmts: List[ast.stmt]) -> None:
+        nonlocal done
+        i = 0
+        while i < len(stmts):
+            st = stmts[i]
+            for fld in ('body', 'orelse', 'finalbody'):
+                sub = getattr(st, fld, None)
+                if isinstance(sub, list) and sub and isinstance(sub[0], ast.stmt):
+                    rewrite(sub)
+            for h in getattr(st, 'handlers', []):
+                rewrite(h.body)
+            if isinstance(st, ast.For):
+                ex = expand(st)
+                if ex is not None:
+                    stmts[i:i + 1] = ex
+                    done += 1
+                    i += len(ex)
+                    continue
+            i += 1
+    rewrite(tree.body)
+    if done:
+        ast.fix_missing_locations(tree)
+    return done
+
+
 class Module:
     def __init__(self, name: str, path: str, relpath: str) -> None:
         self.name = name
@@ -39,6 +146,8 @@ class Module:
         # locals of functions that are alpha-equivalent to the recorded reference get the recorded names back (engine/alphanorm.py)
         from .alphanorm import normalise
         self.alpha_normalised = normalise(self.tree, relpath)
+        # `for a, b in _TABLE:` over a small module-level table of constants is the unrolled sequence of its bodies (see unroll_table_loops)
+        self.unrolled_loops = unroll_table_loops(self.tree)
         self._parents: Optional[Dict[ast.AST, ast.AST]] = None
         self._funcs: Optional[Dict[str, List[FuncNode]]] = None
         self._classes: Optional[Dict[str, ast.ClassDef]] = None
